@@ -17,7 +17,7 @@ import ast
 
 from ..align import IN, Align, Arr, Opaque, Scalar, fmt_space, same_space
 from ..cfg import CFG
-from ..core import AnalysisError
+from ..core import callee_is, AnalysisError
 from ..defuse import DefUse, Terms, show, specialise, walk_term
 from ..defuse import key as tkey
 from ..tutil import (TTUnknown, bound_args, lin, np_call, strip_conv,
@@ -157,8 +157,8 @@ def _check_fit_alignment(ctx, fit):
                     fit_calls.append(n)
                 if n.func.attr == "_update_labels":
                     ul_calls.append(n)
-            if isinstance(n, ast.Call) and isinstance(n.func, ast.Name) and \
-                    n.func.id == "_find_hyperparameters":
+            if isinstance(n, ast.Call) and callee_is(
+                    prog, fit, n, "mokapot.model._find_hyperparameters"):
                 hp_calls.append(n)
         ctx.require(len(fit_calls) >= 1,
                     f"{FIT} [{case}]: no estimator.fit(X, y) call found")
